@@ -433,6 +433,8 @@ let small_scopes : scen list =
     (* a serializable change on two targets with a different follower on each, committed while the devices are away *)
     { base with items = [ Target 1; Target 2; Change ([ (1, 11); (2, 12) ], true); Change ([ (1, 21) ], false); Change ([ (2, 32) ], false);
                           ConnUp (11, 1); ConnUp (12, 2) ] };
+    (* a serializable change and its rollback committed while the device is away, then the device arrives *)
+    { base with items = [ Target 1; Change ([ (1, 11) ], true); Rollback 1; ConnUp (11, 1) ] };
     (* change, rollback of it, change *)
     { base with items = [ Target 1; ConnUp (11, 1); Change ([ (1, 11) ], false); Rollback 1; Change ([ (1, 31) ], false) ] };
   ]
